@@ -295,6 +295,91 @@ func history2names(history []string) []string {
 	return out
 }
 
+// handlerEdgeCases: what reaches ServeDNS without the miekg accept filter in front (another transport, a newer
+// library version with a laxer filter): messages with no question, with several questions. They must not bring
+// the calling goroutine down (a panic that escapes ServeDNS ends the whole process in the real server) and must
+// not be answered positively.
+func handlerEdgeCases(res *core.Result, r *rand.Rand) {
+	w, err := buildWorld(r)
+	if err != nil {
+		return
+	}
+	defer w.conn.Close()
+	msgs := []*mdns.Msg{new(mdns.Msg), new(mdns.Msg), new(mdns.Msg)}
+	msgs[1].Response = true
+	msgs[2].Question = []mdns.Question{{Name: "router.myco.", Qtype: mdns.TypeAAAA, Qclass: mdns.ClassINET}, {Name: "open.myco.", Qtype: mdns.TypeAAAA, Qclass: mdns.ClassINET}}
+	for i, q := range msgs {
+		q.Id = uint16(r.IntN(65536))
+		rec := &recorder{}
+		if pv := func() (pv any) {
+			defer func() { pv = recover() }()
+			w.srv.ServeDNS(rec, q)
+			return nil
+		}(); pv != nil {
+			w.violate(res, "resolver-crash:handler-edge-case", fmt.Sprintf("ServeDNS let a panic escape to its caller for a message with %d questions: %v", len(q.Question), pv), map[string]any{"case_id": "handler-edge"})
+			return
+		}
+		if i < 2 && rec.msg != nil {
+			if _, addrs := replyAddrs(rec.msg); len(addrs) > 0 {
+				w.violate(res, "answered-what-must-be-name-error:no-question", fmt.Sprintf("a message without a question got addresses %v", addrs), map[string]any{"case_id": "handler-edge"})
+				return
+			}
+		}
+		res.Count("handler_edge_cases", 1)
+	}
+}
+
+// burst: many questions arrive at once while replies cannot be written for a moment (the socket is busy): the
+// resolver may drop or delay what it likes meanwhile, but once the burst is over every name must be answered from
+// its source again (bounded progress: the probe queries come one at a time after everything has drained).
+func burst(res *core.Result, r *rand.Rand, n int) {
+	w, err := buildWorld(r)
+	if err != nil {
+		return
+	}
+	defer w.conn.Close()
+	gate := make(chan struct{})
+	var wg sync.WaitGroup
+	for i := 0; i < n; i++ {
+		wg.Add(1)
+		go func(i int) {
+			defer wg.Done()
+			q := new(mdns.Msg)
+			q.Question = []mdns.Question{{Name: "router.myco.", Qtype: mdns.TypeAAAA, Qclass: mdns.ClassINET}}
+			w.srv.ServeDNS(&gatedWriter{gate: gate}, q)
+		}(i)
+	}
+	time.Sleep(30 * time.Millisecond)
+	close(gate)
+	done := make(chan struct{})
+	go func() { wg.Wait(); close(done) }()
+	select {
+	case <-done:
+	case <-time.After(30 * time.Second):
+		res.Inconcl("burst: handlers did not return within 30s after the writer was released")
+		return
+	}
+	for _, n := range append([]string{"router.myco", "unknown-name.myco"}, w.names[:min(len(w.names), 12)]...) {
+		if !w.checkQuery(res, n+".", mdns.TypeAAAA, mdns.ClassINET) {
+			return
+		}
+	}
+	res.Count("bursts_survived", 1)
+	res.Case(fmt.Sprintf("burst|%d", n), true)
+}
+
+// gatedWriter blocks every write until the gate opens.
+type gatedWriter struct {
+	recorder
+	gate chan struct{}
+}
+
+func (g *gatedWriter) WriteMsg(m *mdns.Msg) error { <-g.gate; return nil }
+func (g *gatedWriter) Write(b []byte) (int, error) {
+	<-g.gate
+	return len(b), nil
+}
+
 var apiAddr = netip.MustParseAddr("fd00::b909")
 
 type refCfg struct {
@@ -963,6 +1048,10 @@ func run(c *core.Ctx) {
 			restarts(res, core.RNG(fmt.Sprintf("c19/restarts/%d/%d", wi, i)), filepath.Join(c.WorkDir, fmt.Sprintf("restarts-%d-%d", wi, i)))
 		}
 	})
+	for i := 0; i < c.Q(2, 10); i++ {
+		handlerEdgeCases(res, core.RNG(fmt.Sprintf("c19/edge/%d", i)))
+		burst(res, core.RNG(fmt.Sprintf("c19/burst/%d", i)), 150+150*i)
+	}
 	n := c.Q(200, 5000)
 	const W = 16
 	parallel(W, func(wi int) {
